@@ -91,9 +91,11 @@ func runC18(rc *RunCtx) {
 	// second scheduling point per storage operation (effect vs. continuation) in a third of the runs
 	disk.PostGate = tp.Pick(3) == 2
 	rc.Cfg("post_gate", disk.PostGate)
+	rec18 := NewRecorder(s)
 	h, err := BootCore(disk, CoreOpts{
 		DisableCache: cacheOff, CacheSize: 0, Plain: plain, DisableSSC: !ssc,
-		Logical: map[string]logical.Factory{"kv": kv.Factory},
+		Logical:    map[string]logical.Factory{"kv": kv.Factory},
+		Credential: map[string]logical.Factory{"rec": RecFactory(rec18, true)},
 	})
 	if err != nil {
 		panic(err)
@@ -113,11 +115,29 @@ func runC18(rc *RunCtx) {
 	if err != nil {
 		panic(err)
 	}
+	// the requester of the wrapped read: the root token, or (a third of the
+	// runs) a login token whose ENTITY carries a powerful identity policy - the
+	// wrapping token must not inherit any of the requester's privileges
+	requester := h.Root
+	entityRequester := tp.Pick(3) == 2
+	rc.Cfg("requester_has_entity", entityRequester)
+	if entityRequester {
+		must(h.EnableAuth("rec", "rec"))
+		must(h.Policy("team", `path "secret/*" { capabilities = ["create", "read", "update", "delete", "list"] }`))
+		lr, err := h.Do("setup", Req{Op: logical.UpdateOperation, Path: "auth/rec/login", Data: map[string]any{"policies": "reader", "alias": "alice", "ttl": 7200}})
+		if err != nil || lr == nil || lr.Auth == nil || lr.Auth.EntityID == "" {
+			panic(fmt.Sprintf("entity login failed: %v %v", lr, err))
+		}
+		if _, err := h.RootWrite("identity/entity/id/"+lr.Auth.EntityID, map[string]any{"policies": []string{"team"}}); err != nil {
+			panic(err)
+		}
+		requester = lr.Auth.ClientToken
+	}
 	baseline := keysUnder(disk, "sys/token/", "logical/")
 
 	// ---- the wrapped read ----
 	ttl := time.Duration(tp.Range(1, 600)) * time.Second
-	resp, err := h.Do("wrap", Req{Op: logical.ReadOperation, Path: "secret/foo", Token: h.Root, WrapTTL: ttl})
+	resp, err := h.Do("wrap", Req{Op: logical.ReadOperation, Path: "secret/foo", Token: requester, WrapTTL: ttl})
 	if err != nil || resp == nil || resp.WrapInfo == nil {
 		panic(fmt.Sprintf("wrapped read failed: %v %v", resp, err))
 	}
@@ -173,9 +193,17 @@ func runC18(rc *RunCtx) {
 		misuse := tp.Pick(3) == 2
 		rc.Cfg("misuse", misuse)
 		if misuse {
-			or, oerr := h.Do("misuse", Req{Op: logical.ReadOperation, Path: "secret/foo", Token: wtok})
-			if oerr == nil && or != nil && !or.IsError() {
-				s.Violate("C18", "wrapping-token-used-elsewhere", nil, "wrapping token read secret/foo")
+			mr := Req{Op: logical.ReadOperation, Path: "secret/foo", Token: wtok}
+			if tp.Pick(2) == 1 {
+				mr = Req{Op: logical.UpdateOperation, Path: "secret/misuse", Token: wtok, Data: map[string]any{"v": "written-with-a-wrapping-token"}}
+			}
+			or, oerr := h.Do("misuse", mr)
+			if oerr == nil && (or == nil || !or.IsError()) {
+				s.Violate("C18", "wrapping-token-used-elsewhere", map[string]any{"requester_has_entity": entityRequester}, "the wrapping token was accepted for %s %s (requester with entity policies: %v)", mr.Op, mr.Path, entityRequester)
+				return
+			}
+			if chk, _ := h.RootRead("secret/misuse"); chk != nil && chk.Data != nil {
+				s.Violate("C18", "wrapping-token-used-elsewhere", map[string]any{"requester_has_entity": entityRequester}, "a write presented with the wrapping token took effect: %v", chk.Data)
 				return
 			}
 		}
